@@ -757,6 +757,16 @@ fn exec(w: &mut World, c: &mut Cur) -> Result<AppResponse, String> {
     let app = &mut w.app;
     let e = |r: anyhow::Result<AppResponse>| r.map_err(|e| format!("{:#}", e));
     match kind {
+        // the chain moves on: n blocks, 5 seconds each.  Not an operation of any contract: reported as a refused call (nothing
+        // changes), the model sees a rejected router-internal message in its place
+        "block" => {
+            let n = c.num() as u64;
+            app.update_block(|b| {
+                b.height += n;
+                b.time = b.time.plus_seconds(5 * n);
+            });
+            Err("block advanced".to_string())
+        }
         "bank" => {
             let from = c.addr();
             let to = c.addr();
